@@ -147,8 +147,11 @@ theorem gateH_psd (np n : Nat) (op : COp) (R : HMat n) (h : R.PosSemidef) : (gat
   · exact psd_conjH _ _ h
   · exact h
 
+/-- every noise application of the trace has parameters satisfying `P` -/
+def TraceP (P : NoiseM → Prop) (tr : List Act) : Prop := ∀ k side q nm, Act.noise k side q nm ∈ tr → P nm
+
 /-- every noise application of the trace has physical parameters -/
-def TracePhys (tr : List Act) : Prop := ∀ k side q nm, Act.noise k side q nm ∈ tr → ParamPhys nm
+abbrev TracePhys (tr : List Act) : Prop := TraceP ParamPhys tr
 
 /-- **positivity of the density-matrix run** -/
 theorem runH_psd (np n : Nat) (arr : Array COp) : ∀ (tr : List Act) (R : HMat n), TracePhys tr → R.PosSemidef →
@@ -176,8 +179,9 @@ theorem rho0_trace (n : Nat) : (rho0 n).trace = 1 := by
 /-! ### the compile loop -/
 
 /-- all noise applications of a compile trace are noises of the operations -/
-theorem traceGo_phys (ns : Bool) (be : Backend) (np n : Nat) : ∀ (ops : List COp) (k : Nat) (tr : List Act),
-    (∀ op ∈ ops, OpWF n np op ∧ ParamPhys op.n0 ∧ ParamPhys op.n1) → traceGo ns be np ops k = .ok tr → TracePhys tr
+theorem traceGo_P (P : NoiseM → Prop) (pn : P NoiseM.none) (ns : Bool) (be : Backend) (np n : Nat) :
+    ∀ (ops : List COp) (k : Nat) (tr : List Act),
+    (∀ op ∈ ops, OpWF n np op ∧ P op.n0 ∧ P op.n1) → traceGo ns be np ops k = .ok tr → TraceP P tr
   | [], _, tr, _, h => by
     simp [traceGo] at h; subst h
     intro k side q nm hm; cases hm
@@ -192,8 +196,8 @@ theorem traceGo_phys (ns : Bool) (be : Backend) (np n : Nat) : ∀ (ops : List C
       | ok tr' =>
         rw [hr] at h; injection h with h; subst h
         have ho := hw op List.mem_cons_self
-        have hg := placeOp_goodP ParamPhys trivial n np ns be op k ho.1 ho.2.1 ho.2.2 acts hp
-        have ih := traceGo_phys ns be np n rest (k + 1) tr' (fun o h' => hw o (List.mem_cons_of_mem _ h')) hr
+        have hg := placeOp_goodP P pn n np ns be op k ho.1 ho.2.1 ho.2.2 acts hp
+        have ih := traceGo_P P pn ns be np n rest (k + 1) tr' (fun o h' => hw o (List.mem_cons_of_mem _ h')) hr
         intro k' side q nm hm
         rcases List.mem_append.1 hm with hm | hm
         · rcases hg _ hm with e | e | ⟨s', q', nm', e, _, hP⟩
@@ -201,6 +205,10 @@ theorem traceGo_phys (ns : Bool) (be : Backend) (np n : Nat) : ∀ (ops : List C
           · cases e
           · injection e with _ _ _ e4; rw [e4]; exact hP
         · exact ih k' side q nm hm
+
+theorem traceGo_phys (ns : Bool) (be : Backend) (np n : Nat) (ops : List COp) (k : Nat) (tr : List Act)
+    (hw : ∀ op ∈ ops, OpWF n np op ∧ ParamPhys op.n0 ∧ ParamPhys op.n1) (h : traceGo ns be np ops k = .ok tr) :
+    TracePhys tr := traceGo_P ParamPhys trivial ns be np n ops k tr hw h
 
 theorem traceGo_okd (ns : Bool) (be : Backend) (np n : Nat) (arr : Array COp)
     (harr : ∀ (j : Nat) (op : COp), arr[j]? = some op → OpOK n np op) : ∀ (ops : List COp) (k : Nat) (tr : List Act),
